@@ -317,12 +317,26 @@ fn check(ctx: &Ctx) -> i32 {
     // (a) same option set: all pairs (thorough: all triples) of patterns, blocking and exception
     let k_same: usize = ctx.tier.pick(2, 3);
     let combos: u64 = if k_same == 2 { (np * (np - 1) / 2) as u64 } else { (np * (np - 1) * (np - 2) / 6) as u64 };
+    // rules are fused bucket by bucket: a pair of patterns is only a fusion candidate when the two
+    // can be filed under a common token (or both have none and go to the wildcard bucket). The
+    // quick tier skips the other pairs; the thorough tier (triples) takes everything.
+    let pattern_tokens: Vec<Vec<u64>> = (0..np)
+        .map(|p| match vh::alpha::cube_rule(p, 1, false).and_then(|r| NetworkFilter::parse(&r, true, Default::default()).ok()) {
+            Some(f) => f.get_tokens().into_iter().flatten().collect(),
+            None => vec![],
+        })
+        .collect();
+    let may_share_bucket = |a: usize, b: usize| (pattern_tokens[a].is_empty() && pattern_tokens[b].is_empty()) || pattern_tokens[a].iter().any(|t| pattern_tokens[b].contains(t));
     ctx.par_range("cube: same option set", combos * no as u64 * 2, 8, |i, l| {
         let res = ResourceStorage::from_resources(vh::net::std_resources());
         let c = i % combos;
         let o = ((i / combos) % no as u64) as usize;
         let exc = i / combos / no as u64 == 1;
         let idx = nth_combination(c, np, k_same);
+        if k_same == 2 && !may_share_bucket(idx[0], idx[1]) {
+            l.count("cube_pairs_skipped_no_common_bucket", 1);
+            return;
+        }
         let rules: Vec<String> = idx.iter().filter_map(|&p| vh::alpha::cube_rule(p, o, exc)).collect();
         if rules.len() < 2 {
             return;
@@ -335,8 +349,8 @@ fn check(ctx: &Ctx) -> i32 {
         check_list(&refs, &cube_reqs, &res, l);
     });
     // (b) one pattern pair under two different option sets (grouping keys must keep them apart):
-    // 12 patterns that land in the wildcard bucket or share the `ads` bucket x all ordered pairs of option sets
-    let pats_b: Vec<usize> = vh::alpha::CUBE_PATTERNS.iter().enumerate().filter(|(_, p)| ["ads", "ads*", "*ads", "ads^", "^ads^", "ads.", "a", "/", "*", "", "=1", "/ads"].contains(p)).map(|(i, _)| i).collect();
+    // 8 (thorough: 12) patterns that land in the wildcard bucket or share the `ads` bucket x all ordered pairs of option sets
+    let pats_b: Vec<usize> = vh::alpha::CUBE_PATTERNS.iter().enumerate().filter(|(_, p)| if ctx.tier == vh::Tier::Quick { ["ads", "ads*", "ads^", "a", "/", "*", "", "/ads"].contains(p) } else { ["ads", "ads*", "*ads", "ads^", "^ads^", "ads.", "a", "/", "*", "", "=1", "/ads"].contains(p) }).map(|(i, _)| i).collect();
     let nb = pats_b.len() as u64;
     ctx.par_range("cube: two option sets", nb * nb * (no * no) as u64, 8, |i, l| {
         let res = ResourceStorage::from_resources(vh::net::std_resources());
